@@ -1611,8 +1611,8 @@ def with_src(prop, functions, module, theorems, share=12):
     become proof obligations of the property, the translator output `PySrc` is regenerated before its build, and
     1/`share` of its correspondence budget runs the translated source against the real functions (`src.call`)."""
     cls = type(prop)
-    prop.lean_modules = list(cls.lean_modules) + [m for m in ([module] if isinstance(module, str) else module)
-                                                  if m not in cls.lean_modules]
+    prop.lean_modules = list(prop.lean_modules) + [m for m in ([module] if isinstance(module, str) else module)
+                                                   if m not in prop.lean_modules]       # x5: repeated application adds up
     prop.theorems = list(prop.theorems) + [t for t in theorems if t not in prop.theorems]
     prop.generated = list(prop.generated) + (["PySrc"] if "PySrc" not in prop.generated else [])
     prop.src_functions = list(getattr(prop, "src_functions", [])) + list(functions)
